@@ -74,6 +74,11 @@ def gen(rng, n_cases):
         metric = METRICS[t % 3]
         if t % 11 == 5 and n <= 40:
             metric = EXTRA_METRICS[(t // 11) % len(EXTRA_METRICS)]
+        if metric in EXTRA_METRICS:
+            # data-dependent metrics need a point set whose covariance SciPy can invert (also after scaling / shifting)
+            C_ = np.atleast_2d(np.cov(F.T)) if len(F) > 1 else np.zeros((m, m))
+            if len(F) <= m + 1 or not np.all(np.isfinite(C_)) or np.linalg.matrix_rank(C_) < m or F.std(axis=0).min() < 1e-6:
+                metric = METRICS[t % 3]
         # how the indicator object came to be: built as asked / built with another metric and re-configured
         # (`ind.metric = ...`) / a deep copy or an unpickled copy of the one that was built
         how = ["ctor", "ctor", "assign", "deepcopy", "pickle"][rng.randint(5)]
